@@ -413,16 +413,128 @@ struct Checked {
     blocks: u64,
     rejects: Vec<Reject>,
     bad: Vec<String>,
+    /// blocks whose clone / drop calls in the real LIR differ from what the model of the
+    /// MIR → LIR lowering (`c03 lir-expect`) emits for the MIR block
+    lir_diffs: Vec<String>,
+    lir_blocks: u64,
+}
+
+/// The clone / drop calls in the LIR of every function of `src`, per block in block order:
+/// `C<root>` for `mem::clone(dst, src, …)` / `::generated::clone_N(dst, src)`, `D<root>` for
+/// `mem::drop(v, …)` / `::generated::drop_N(v)`, where `<root>` is the variable the pointer is
+/// an offset of (`$k = ptr::offset(w, 16)` → `w`).
+fn lir_ownership_calls(text: &str) -> Result<std::collections::HashMap<String, Vec<(String, Vec<String>)>>, String> {
+    let mut out: std::collections::HashMap<String, Vec<(String, Vec<String>)>> = Default::default();
+    let mut cur: Option<(String, Vec<(String, Vec<String>)>, std::collections::HashMap<String, String>)> = None;
+    for line in text.lines() {
+        let l = line.trim();
+        if let Some(r) = l.strip_prefix("fn ") {
+            let name = r.split('(').next().unwrap_or("").trim().to_string();
+            cur = Some((name, vec![], Default::default()));
+            continue;
+        }
+        let Some((_, blocks, ptrs)) = cur.as_mut() else { continue };
+        if l == "}" {
+            let (name, blocks, _) = cur.take().unwrap();
+            out.insert(name, blocks);
+            continue;
+        }
+        if let Some(lbl) = l.strip_prefix('.') {
+            blocks.push((lbl.to_string(), vec![]));
+            continue;
+        }
+        let root = |ptrs: &std::collections::HashMap<String, String>, v: &str| -> String {
+            let mut v = v.trim().to_string();
+            for _ in 0..64 {
+                match ptrs.get(&v) {
+                    Some(b) => v = b.clone(),
+                    None => break,
+                }
+            }
+            v
+        };
+        let args = |r: &str| -> Vec<String> {
+            r.trim_end_matches(')').split(',').map(|x| x.trim().to_string()).collect()
+        };
+        if let Some((lhs, rhs)) = l.split_once(" = ptr::offset(") {
+            let base = rhs.split(',').next().unwrap_or("").trim().to_string();
+            ptrs.insert(lhs.trim().to_string(), base);
+        } else if let Some(r) = l.strip_prefix("mem::drop(") {
+            let a = args(r);
+            let e = format!("D{}", root(ptrs, &a[0]));
+            if let Some(b) = blocks.last_mut() { b.1.push(e) }
+        } else if l.starts_with("::generated::drop_") {
+            let a = args(l.split_once('(').map(|x| x.1).unwrap_or(""));
+            let e = format!("D{}", root(ptrs, &a[0]));
+            if let Some(b) = blocks.last_mut() { b.1.push(e) }
+        } else if let Some(r) = l.strip_prefix("mem::clone(") {
+            let a = args(r);
+            let e = format!("C{}", root(ptrs, a.get(1).map(|x| x.as_str()).unwrap_or("")));
+            if let Some(b) = blocks.last_mut() { b.1.push(e) }
+        } else if l.starts_with("::generated::clone_") {
+            let a = args(l.split_once('(').map(|x| x.1).unwrap_or(""));
+            let e = format!("C{}", root(ptrs, a.get(1).map(|x| x.as_str()).unwrap_or("")));
+            if let Some(b) = blocks.last_mut() { b.1.push(e) }
+        }
+    }
+    Ok(out)
+}
+
+/// Compare, block by block, what the model of the lowering emits for the MIR item (`ans` of
+/// `c03 lir-expect`) with the calls in the real LIR function.
+fn lir_compare(it: &roto::verif_hooks::c03::ItemDump, ans: &str, lir: Option<&Vec<(String, Vec<String>)>>, out: &mut Checked) {
+    if lir.is_none() && it.is_constant {
+        // a constant's initialiser is not printed as a function of the LIR
+        return;
+    }
+    let Some(lir) = lir else {
+        out.lir_diffs.push(format!("{}: no function of that name in the LIR", it.name));
+        return;
+    };
+    let groups: Vec<&str> = ans.split(" ; ").collect();
+    if groups.len() != lir.len() {
+        out.lir_diffs.push(format!("{}: {} MIR blocks, {} LIR blocks", it.name, groups.len(), lir.len()));
+        return;
+    }
+    for (g, (label, calls)) in groups.iter().zip(lir) {
+        out.lir_blocks += 1;
+        let (head, body) = g.split_once(':').unwrap_or((g, ""));
+        let mir_label = head.trim().trim_start_matches('B').parse::<usize>().ok().and_then(|i| it.labels.get(i).cloned()).unwrap_or_default();
+        let mir_label = mir_label.trim_start_matches('.').to_string();
+        let expect: Vec<String> = body.split_whitespace().map(|e| {
+            let (k, v) = e.split_at(1);
+            match v.parse::<usize>().ok().and_then(|i| it.vars.get(i)) {
+                Some(name) => format!("{k}{name}"),
+                None => e.to_string(),
+            }
+        }).collect();
+        // a clone of a constant / of the context reads from a compiler temporary: only the kind is compared
+        let same = mir_label == *label && expect.len() == calls.len()
+            && expect.iter().zip(calls).all(|(e, c)| e == c || (e == "C-" && c.starts_with('C')));
+        if !same {
+            out.lir_diffs.push(format!("{} block {} (LIR .{}): the lowering model emits [{}] for the MIR block, the LIR has [{}]",
+                it.name, mir_label, label, expect.join(" "), calls.join(" ")));
+        }
+    }
 }
 
 /// Dump every item of `src` and run the verified checker on each.
 fn check_script(drv: &mut Driver, src: &str) -> Result<Checked, String> {
-    let (items, gone) = dump_with_gone(src)?;
-    let mut out = Checked { items: items.len(), blocks: 0, rejects: vec![], bad: vec![] };
+    // the MIR dump, the eliminated definitions and the LIR of ONE lowering
+    let rt = runtime();
+    let (items, gone, lir_text) = roto::verif_hooks::c03::dump_with_eliminated_and_lir(FileTree::test_file("c03.roto", src, 0), &rt).map_err(|e| format!("{e}"))?;
+    let mut out = Checked { items: items.len(), blocks: 0, rejects: vec![], bad: vec![], lir_diffs: vec![], lir_blocks: 0 };
+    let lir = lir_ownership_calls(&lir_text)?;
     for it in &items {
         if !it.lowered {
             // the LIR lowerer skips items with an uninhabited parameter
             continue;
+        }
+        let expect = drv.ask(&format!("c03 lir-expect {}", nums_line(&it.nums)));
+        if expect.starts_with('B') {
+            lir_compare(it, &expect, lir.get(&it.name), &mut out);
+        } else {
+            out.bad.push(format!("{}: lir-expect: {expect}", it.name));
         }
         let ans = drv.ask(&format!("c03 check {}", nums_line(&it.nums)));
         let w: Vec<&str> = ans.split_whitespace().collect();
@@ -595,6 +707,8 @@ fn one_case_glue(rep: &mut Report, drv: &mut Driver, src: &str, ret: Ret, origin
     for b in &checked.bad {
         rep.mismatch("driver could not read the dump", json!({"script": src, "answer": b}));
     }
+    rep.evaluations += checked.lir_blocks;
+    rep.hist("lir-blocks-compared", if checked.lir_diffs.is_empty() { "same-calls" } else { "different-calls" });
     let mut pkg = match compile(src) {
         Ok(p) => p,
         Err(e) => {
@@ -698,6 +812,14 @@ fn one_case_glue(rep: &mut Report, drv: &mut Driver, src: &str, ret: Ret, origin
                 &format!("the glue model predicts a wrong release ({}) but every path balanced on the real code", model_says.clone().unwrap_or_default()),
                 json!({"script": src, "origin": origin}));
         }
+        (None, None) if !checked.lir_diffs.is_empty() => {
+            // every path balanced, yet the LIR's clone / drop calls are not those the model of the
+            // lowering emits: the model (or the translator's reading of src/lir/lower.rs) is not
+            // faithful to what the lowering does
+            rep.mismatch(
+                &format!("the clone / drop calls in the LIR differ from what the model of the MIR → LIR lowering emits: {}", checked.lir_diffs.iter().take(3).cloned().collect::<Vec<_>>().join(" || ")),
+                json!({"script": src, "origin": origin}));
+        }
         (None, None) => {
             let z = if tok == Tok::Zero { "zst:" } else { "" };
             rep.class(if glue { format!("balanced-glue:{}", class_of_glue(origin, src)) } else { format!("balanced:{z}{}", class_sig(src)) });
@@ -732,6 +854,17 @@ fn one_case_glue(rep: &mut Report, drv: &mut Driver, src: &str, ret: Ret, origin
                     describe(b), b.created, b.cloned, b.dropped, i.n, i.m, i.c),
                 "zero-sized-token-glue", input(i, b));
             rep.class("defect:zero-sized-token-glue".to_string());
+        }
+        (Some((i, b)), None) if !checked.lir_diffs.is_empty() => {
+            // The MIR is justified by both verified checkers, and the LIR does not perform the
+            // clone / drop calls that the MIR's ownership events name (`block_lowering_keeps_events`
+            // over the lowering as extracted from src/lir/lower.rs): the MIR → LIR lowering took an
+            // ownership decision of its own.
+            rep.violation(
+                &format!("MIR → LIR lowering: {} on the path n={} m={} c={} of a program whose MIR the verified checkers accept; the clone / drop calls in the LIR are not the ownership events of the MIR: {}",
+                    describe(b), i.n, i.m, i.c, checked.lir_diffs.iter().take(3).cloned().collect::<Vec<_>>().join(" || ")),
+                "lir-lowering-ownership", input(i, b));
+            rep.class("defect:lir-lowering-ownership".to_string());
         }
         (Some((i, b)), None) if !runtime_element_calls(src).is_empty() => {
             // The MIR is justified by both verified checkers and hands a value to the list
@@ -803,7 +936,7 @@ fn class_sig(src: &str) -> String {
     let mut f = vec![];
     for (k, pat) in [("w", "while "), ("f", "for "), ("m", "match "), ("g", ") if "), ("r", "return"),
                      ("a", "accept"), ("j", "reject"), ("q", ")?"), ("&", "&&"), ("|", "||"), ("R", "R {"),
-                     ("Q", "Q {"), ("E", "E."), ("F", "f\""), ("K", "KT"), ("L", "["), ("_", "_ "), ("=", ".a = "), ("p", ".push("), ("c", ".contains("), ("i", ".index("), ("x", ".concat("), ("s", ".swap("), ("G", ") if { ")] {
+                     ("Q", "Q {"), ("E", "E."), ("F", "f\""), ("K", "KT"), ("L", "["), ("_", "_ "), ("=", ".a = "), ("S", "= w"), ("p", ".push("), ("c", ".contains("), ("i", ".index("), ("x", ".concat("), ("s", ".swap("), ("G", ") if { ")] {
         let n = body.matches(pat).count();
         if n > 0 {
             f.push(format!("{k}{}", n.min(3)));
@@ -811,6 +944,9 @@ fn class_sig(src: &str) -> String {
     }
     f.join("")
 }
+
+/// a `W` (record with sibling fields of the same droppable types) built from the parameters
+const W0: &str = "let w = W { x: t, y: mk(n), l: V { v: mk(1), s: s }, r: V { v: mk(2), s: \"r\" + s }, p: maybe(c, m), q: maybe(true, 3), u: many(n), w: many(m) };";
 
 const RETS: [Ret; 7] = [Ret::U32, Ret::Tk, Ret::Str, Ret::OptTk, Ret::ListTk, Ret::Verdict, Ret::Unit];
 
@@ -932,6 +1068,24 @@ fn table() -> Vec<(&'static str, Ret, String)> {
         ("mixed-record", Ret::U32, format!("record M {{ z: Tz, a: Tk, y: Tz, k: u32 }}\n{}", f("u32", "let r = M { z: mkz(1), a: t, y: mkz(2), k: n }; let r2 = r; let z2 = r2.z; r2.y = z2; if c { return 1; } let l = [r, r2]; match l.get(0) { Some(x) => idz(x.y) + id(x.a), None => 0 }"))),
         ("mixed-enum", Ret::U32, format!("enum ME {{ A(Tz, Tk), B(Tk, Tz), C(Tz), D }}\n{}", f("u32", "let e = if n == 0 { ME.A(mkz(1), t) } else if n == 1 { ME.B(t, mkz(2)) } else if n == 2 { ME.C(mkz(3)) } else { ME.D }; let g = e; if c { return 1; } let l = [e, g]; match l.get(0) { Some(x) => match x { A(z, a) => id(a) + idz(z), B(a, z) => idz(z), C(z) => 2, D => 3 }, None => 4 }"))),
         ("mixed-option-list", Ret::U32, f("u32", "let o = maybez(c, 1); let p = o; let l: List[Tz?] = [o, p, None]; let k = 0; for e in l { k = k + match e { Some(z) => 1 + idz(z), None => 0 }; } let q = [manyz(n), manyz(m)]; for e in q { k = k + countz(e); } k + id(t)")),
+        // assignment from a SIBLING place: the right-hand side is a plain place read rooted in the
+        // same variable as the assigned place (same droppable type, different projection path).
+        // The MIR is `tmp = clone w.<b>; drop w.<a>; w.<a> = tmp`: a clone and a drop of one root
+        // variable and one type stand next to each other, and only their paths tell them apart —
+        // for the MIR checker and for everything below the MIR (LIR lowering, code generation).
+        ("sib-assign-field", Ret::U32, f("u32", &format!("{W0} w.x = w.y; id(w.x) + id(w.y)"))),
+        ("sib-assign-nested", Ret::U32, f("u32", &format!("{W0} w.l.v = w.r.v; id(w.l.v) + id(w.r.v)"))),
+        ("sib-assign-string", Ret::U32, f("u32", &format!("{W0} w.l.s = w.r.s; slen(w.l.s)"))),
+        ("sib-assign-record", Ret::U32, f("u32", &format!("{W0} w.l = w.r; id(w.l.v) + slen(w.r.s)"))),
+        ("sib-assign-option", Ret::U32, f("u32", &format!("{W0} w.p = w.q; match w.p {{ Some(y) => id(y), None => 0 }}"))),
+        ("sib-assign-list", Ret::U32, f("u32", &format!("{W0} w.u = w.w; count(w.u)"))),
+        ("sib-assign-loop", Ret::U32, f("u32", &format!("{W0} let i = 0; while i < n {{ w.l.v = w.r.v; w.x = w.y; w.l.s = w.r.s; i = i + 1; }} id(w.x) + id(w.l.v)"))),
+        ("sib-assign-swap", Ret::U32, f("u32", &format!("{W0} let tmp = w.x; w.x = w.y; w.y = tmp; if c {{ return id(w.x); }} id(w.y)"))),
+        ("sib-assign-cross-level", Ret::U32, f("u32", &format!("{W0} w.x = w.l.v; w.r.v = w.y; id(w.x) + id(w.r.v)"))),
+        ("sib-assign-then-overwrite", Ret::U32, f("u32", &format!("{W0} w.x = w.y; w.y = mk(7); let k = id(w.x); w.l.s = w.r.s; w.r.s = \"new\"; k + slen(w.l.s)"))),
+        ("sib-assign-self", Ret::Tk, f("Tk", &format!("{W0} w.x = w.x; w.l.s = w.l.s; w.l = w.l; let z = t; z = z; if c {{ return w.x; }} z"))),
+        ("sib-assign-param", Ret::U32, format!("{pre}fn g(w: W, k: u32) -> W {{ let i = 0; while i < k {{ w.x = w.y; w.p = w.q; i = i + 1; }} w }}\nfn main({p}) -> u32 {{ {W0} let r = g(w, n); id(r.x) + id(w.y) }}\n")),
+        ("sib-assign-in-match-arm", Ret::U32, f("u32", &format!("{W0} match w.p {{ Some(y) => {{ w.x = w.y; id(y) }}, None => {{ w.l.v = w.r.v; 0 }} }}"))),
         ("rt-push-get-swap-concat", Ret::U32, f("u32", "let l = many(n); l.push(t); l.swap(0, 1); let a = l.concat(many(m)); let k = match a.get(1) { Some(x) => id(x), None => 0 }; if a.is_empty() { k } else { k + 1 }")),
     ]
 }
@@ -1282,6 +1436,17 @@ fn main() {
             }
             Err(e) => println!("ERROR\n{e}"),
         },
+        Some("lirdiff") => {
+            let mut drv = Driver::spawn().expect("lean driver");
+            match check_script(&mut drv, &args[2]) {
+                Ok(c) => {
+                    println!("blocks compared {} diffs {}", c.lir_blocks, c.lir_diffs.len());
+                    for d in c.lir_diffs { println!("{d}") }
+                    for d in c.bad { println!("BAD {d}") }
+                }
+                Err(e) => println!("ERROR {e}"),
+            }
+        }
         Some("gone") => {
             // the variables whose only writes were removed by dead-code elimination
             for (item, defs) in dump_with_gone(&args[2]).map(|x| x.1).unwrap_or_default() {
